@@ -251,6 +251,7 @@ def corr_arrays(run, quick):
                             r = fn(a.copy(), s, ell_min)
                         meta = {"op": nm, "s": s, "ell_min": ell_min, "ell_max": ell_max, "kind": kind}
                         b.add(f"diff arrayop {nm} {s} {ell_min} {n} " + cx_send(a), cx_bits(r), meta, f"arrayop:{nm}:{kind}")
+                        b.add(f"diff genarrayop {nm} {s} {ell_min} {n} " + cx_send(a), cx_bits(r), {**meta, "model": "generated"}, f"genarrayop:{nm}:{kind}")
                         if kind == "ones" and ell_min == 0 and nm != "ethbar_inverse_NP":
                             for ell in range(ell_max + 1):
                                 coef_lines.append(f"diff coef {nm.replace('_', '')} {s} {ell} 0")
@@ -263,6 +264,7 @@ def corr_arrays(run, quick):
             for nm, fn in fns.items():
                 r = fn(a.copy(), s, ell_min)
                 b.add(f"diff arrayop {nm} {s} {ell_min} {n} " + cx_send(a), cx_bits(r), {"op": nm, "s": s, "ell_min": ell_min, "n": n, "kind": "odd-length"}, f"arrayop:{nm}:odd-length")
+                b.add(f"diff genarrayop {nm} {s} {ell_min} {n} " + cx_send(a), cx_bits(r), {"op": nm, "s": s, "ell_min": ell_min, "n": n, "kind": "odd-length", "model": "generated"}, f"genarrayop:{nm}:odd-length")
         nbad += b.flush()
         out = run.driver(coef_lines) if coef_lines else []
         if out is None:
